@@ -109,7 +109,7 @@ var reflectIdentity = map[string]bool{
 }
 var reflectProject = map[string]bool{
 	"(reflect.Value).Index": true, "(reflect.Value).MapIndex": true, "(reflect.Value).MapKeys": true, "(reflect.Value).Field": true,
-	"(reflect.Value).FieldByName": true, "(reflect.Value).FieldByIndex": true, "(*reflect.MapIter).Key": true, "(*reflect.MapIter).Value": true,
+	"(reflect.Value).FieldByName": true, "(reflect.Value).FieldByIndex": true, "(reflect.Value).FieldByIndexErr": true, "(*reflect.MapIter).Key": true, "(*reflect.MapIter).Value": true,
 }
 
 // termSum: what a function does with its inputs, relative to its parameters (index i) and free variables (1000+i).
